@@ -40,7 +40,7 @@ CLAIMS = {
     "C18": (K + "; hostile-segment step from any window state with the ring buffer abstracted by a verified-separately FIFO stub",
             "Solver-decided: any <= 8 byte data segment against an established session in ANY window state satisfying the representation invariant: Ok/Err, never panic/overflow, invariant preserved, wrong sequence / window overrun / ack of a segment not in flight are errors; hostile handshake requests <= 10 bytes (negotiated MTU in range, windows opened); sender step (segment only when the peer window allows, consecutive sequence numbers, pending ack piggy-backed, payload is the message slice, flags) for segment sizes 20-21 and messages <= 24 B; is_ack_due predicate; real RingBuf<8> == FIFO. Sender->receiver compositions: the whole handshake between two sessions (both ends agree, first data segment accepted in each direction) and the first segment of any message <= 24 B accepted by the peer (quick); whole two-segment transfer with acknowledgement leg and sequence wrap (thorough). The production RingBuf<3166> and the async Btp wrapper are outside.", "4/C18"),
     "C19": (K + "; compiler-level stubs of the CertRef accessors (symbolic certificate attributes), recording signature oracle",
-            "NARROW: solver-decided: CertVerifier (add_cert / verify_usage / finalise) accepts the chains NOC->RCAC and NOC->ICAC->RCAC iff the reference predicate holds (every link an authority link with a good signature, validity vs reliable / last-known-good time, leaf non-CA with digitalSignature and server+client auth, authorities CA with keyCertSign within path length, no unknown critical extension, root verifies against itself), each rule also as its own role. Extraction of those attributes from TLV, DER re-encoding, the real signature and the AddNOC/CASE wrappers are outside.", "4/C19"),
+            "NARROW: solver-decided: CertVerifier (add_cert / verify_usage / finalise) accepts the chains NOC->RCAC and NOC->ICAC->RCAC iff the reference predicate holds (every link an authority link with a good signature, validity vs reliable / last-known-good time, leaf non-CA with digitalSignature and server+client auth, authorities CA with keyCertSign within path length, no unknown critical extension, root verifies against itself), each rule also as its own role; plus the extended-key-usage accessor on real certificate TLV (list of 1-3 purposes, any values) == 'every required purpose is listed'. Extraction of the other attributes from TLV, DER re-encoding, the real signature and the AddNOC/CASE wrappers are outside.", "4/C19"),
     "C20": (K + "; state harnesses over the real Sessions table (capacity 3)",
             "NARROW: solver-decided: get_session_for_eviction never picks a reserved session or one with a live exchange, prefers expired ones, and offers an idle session whenever one exists (clock ties included); PASE purge leaves only the answering session, expired; add fails iff the table is full and remove frees the slot (thorough). Busy answer, rendezvous guards, ReservedSession drop (needs Matter) and the async reserve->evict->retry loop are outside.", "4/C20"),
 }
